@@ -112,7 +112,7 @@ PROPS = {
         assumptions=["the wrapped estimator's fit is a function of its arguments (and permutation invariant)"],
         explanation="fit contracts: the wrapped estimator is fitted on the labeled rows only; paired fits with / without / moved unlabeled rows and weights"),
     "C13": dict(
-        units=[("contracts.frames", has("F1.")), ("contracts.classifier_validate", None)],
+        units=[("contracts.frames", has("F1.")), ("contracts.classifier_validate", None), ("contracts.sliding_window", None)],
         obligations_of={"contracts.classifier_validate": hasnot("C11.")},
         bounded=[("bounded/stream_budget.py", "C13"), ("bounded/models.py", "C13")],
         trusted=[L1_BASE],
